@@ -39,6 +39,7 @@ pub trait ExByteArray<const LENGTH: usize>: crate::types::Bytes {
             self.bview().len() >= LENGTH,
         ensures
             r@ == self.bview().subrange(0, LENGTH as int),
+            self.bview().len() == LENGTH ==> r@ == self.bview(),
     ;
 }
 
@@ -70,6 +71,7 @@ pub trait ExMutByteArray<const LENGTH: usize>: crate::types::ByteArray<LENGTH> +
         ensures
             r@ == old(self).bview().subrange(0, LENGTH as int),
             final(self).bview() == final(r)@ + old(self).bview().subrange(LENGTH as int, old(self).bview().len() as int),
+            old(self).bview().len() == LENGTH ==> r@ == old(self).bview() && final(self).bview() == final(r)@,
     ;
 }
 
@@ -118,6 +120,24 @@ impl BytesSpecImpl for [u8] {
 impl<const LENGTH: usize> BytesSpecImpl for [u8; LENGTH] {
     open spec fn bview(&self) -> Seq<u8> {
         self@
+    }
+}
+
+impl BytesSpecImpl for &[u8] {
+    open spec fn bview(&self) -> Seq<u8> {
+        (*self)@
+    }
+}
+
+impl BytesSpecImpl for &mut [u8] {
+    open spec fn bview(&self) -> Seq<u8> {
+        (*self)@
+    }
+}
+
+impl<const LENGTH: usize> BytesSpecImpl for &[u8; LENGTH] {
+    open spec fn bview(&self) -> Seq<u8> {
+        (*self)@
     }
 }
 
